@@ -210,7 +210,12 @@ impl Network {
             .node(service_trip)
             .as_service_trip()
             .maximal_formation_count();
-        limit_of_type.map(|l| l.min(limit_of_node.unwrap_or(l)))
+        // the smaller of the two limits; a limit given only on the route segment applies as well
+        match (limit_of_type, limit_of_node) {
+            (Some(type_limit), Some(node_limit)) => Some(type_limit.min(node_limit)),
+            (Some(type_limit), None) => Some(type_limit),
+            (None, node_limit) => node_limit,
+        }
     }
 
     pub fn get_depot_idx(&self, node_idx: NodeIdx) -> DepotIdx {
